@@ -33,79 +33,36 @@ theorem ops_total :
 
 example : (allBOps.filter isIn).map BOp.tok = [['i', 'n'], ['n', 'o', 't', '.', 'i', 'n']] := by decide
 
+/-- The emitter's own precedence table (`CppOperatorPrecedences`, translated from py2cpp.py) agrees with the C++ grammar table
+    `cppTable` on every infix operator of the core: its entry is the level of the operator's C++ symbol (+1); unary `!` gets the
+    translated `unary` value, above every binary entry. -/
+theorem emitter_table_agrees :
+    (∀ (op : BOp) (s : Str), op.cpp = some s →
+      lookup op.tok cppPrecBinary = some op.prec ∧ cppOps.bin op.code = some (op.prec - 1) ∧ op.prec < cppPrecUnary) ∧
+    precOf ['!'] = cppPrecUnary ∧ cppOps.pre bangCode = some (cppPrecUnary - 1) := by
+  refine ⟨fun op s h => ?_, rfl, rfl⟩
+  have := prec_facts h
+  exact ⟨this.1, this.2.1, by have := this.2.2.2; simp only [cppPrecUnary]; omega⟩
+
 /-! ## grouping -/
 
-/-- C++'s own parse of the emitted tokens is a tree, and it is the tree Python's grammar gives the node. -/
-def Regroups (n : Node) : Prop := ∃ e, pyExpr n = some e ∧ parse cppOps (toks n) = some e
+/-- C++'s own parse of the emitted tokens is a tree, and — up to parentheses — it is the tree Python's grammar gives the node. -/
+def Regroups (n : Node) : Prop := ∃ e p, pyExpr n = some p ∧ parse cppOps (toks n) = some e ∧ strip e = strip p
 
-/-- **Characterisation.** For every grammar-producible operator node of the core: the C++ re-parse of the emitted tokens is
-    Python's grouping ⇔ the node has no bad pair (no comparison chain, no fused `--`/`++`, no parent/child slot in the
-    table `badPairs` computed from the two precedence tables). -/
-theorem group_iff (n : Node) (hc : core n = true) (hw : wf n = true) : Regroups n ↔ noBadPair n = true := by
-  have hprint := emit_print n hc
-  have hpy := (nf_iff_pairs pyOps (pyExprL n)).mp (nf_py n hc hw).1
-  constructor
-  · rintro ⟨e, he, hp⟩
-    simp only [pyExpr] at he
-    split at he
-    · next hcc =>
-      simp only [Bool.and_eq_true] at hcc
-      cases he
-      obtain ⟨ht, hnf⟩ := (parse_eq_some_iff cppOps _ _).mp hp
-      have hlen : (cppLex (emitRaw n)).length = (unspaced (emitRaw n)).length := by
-        have h1 := congrArg List.length ht
-        have h2 := congrArg List.length hprint
-        simp only [toks, emit, List.length_map] at h1 h2
-        omega
-      have hfuse := cppLex_eq_of_length _ hlen
-      have hslots := (nf_iff_pairs cppOps (pyExprL n)).mp hnf
-      simp only [noBadPair, Bool.and_eq_true, List.all_eq_true, Bool.not_eq_true', noFuse, beq_iff_eq]
-      refine ⟨⟨hcc.2, hfuse⟩, fun x hx => ?_⟩
-      cases hcon : badPairs.contains x with
-      | false => rfl
-      | true =>
-        exfalso
-        have hmem : x ∈ badPairs := by simpa using hcon
-        have := ((mem_badSlots pyOps cppOps vocabulary x).mp hmem).2.2.2
-        rw [hslots x hx] at this
-        cases this
-    · cases he
-  · intro h
-    simp only [noBadPair, Bool.and_eq_true, List.all_eq_true, Bool.not_eq_true', noFuse, beq_iff_eq] at h
-    obtain ⟨⟨hcf, hfuse⟩, hslots⟩ := h
-    refine ⟨pyExprL n, by simp [pyExpr, hc, hcf], ?_⟩
-    have ht : toks n = print (pyExprL n) := by simp only [toks, emit, hfuse, hprint]
-    rw [ht]
-    apply parse_print_NF
-    rw [nf_iff_pairs]
-    intro x hx
-    have hv := pairs_heads (pyExprL n) x hx
-    have hvoc := heads_vocabulary n hc
-    cases hcpp : slotOk cppOps x.1 x.2.1 x.2.2 with
-    | true => rfl
-    | false =>
-      exfalso
-      have hmem : x ∈ badPairs := (mem_badSlots pyOps cppOps vocabulary x).mpr
-        ⟨hvoc _ hv.1, by
-          rcases hv.2 with h | h
-          · simp [h]
-          · exact List.mem_cons_of_mem _ (hvoc _ h), hpy x hx, hcpp⟩
-      have := hslots x hx
-      simp [hmem] at this
+/-- The grouping sentence of the property for the operator core, with the one exclusion stated explicitly: comparison chains
+    (`a < b < c`, emitted verbatim — known finding `chain-compare`). -/
+def group_statement : Prop := ∀ n : Node, core n = true → wf n = true → cmpChainFree n = true → Regroups n
 
-/-- non-vacuity of `group_iff`, both ways: `(a & b) == c` regroups correctly, and it has no bad pair -/
-example : Regroups (.chain 3 .int (.group (.chain 6 .int (.atom 1 ['a']) (.cons .band false .int (.atom 2 ['b']) .nil)))
-    (.cons .eq false .int (.atom 3 ['c']) .nil)) :=
-  (group_iff _ (by decide) (by decide)).mpr (by decide)
-
-/-- the table of bad parent/child slots is not empty on the pinned tree: e.g. `&` as left child of `==` -/
-example : (Head.bin (symCode ['=', '=']), Side.left, Head.bin (symCode ['&'])) ∈ badPairs := by decide
-example : badPairs.length = 60 := by decide
-
-/-- The full statement of the property's grouping sentence (kept visible): *every* operator node the grammar can produce
-    is regrouped by C++ the way Python groups it. It is false on the pinned tree (`group_counterexample`); it becomes true
-    once the emitter parenthesises every bad pair (proposed/C01-operator-precedence.diff). -/
-def group_statement : Prop := ∀ n : Node, core n = true → wf n = true → Regroups n
+/-- **Grouping by construction** (repaired emitter, /repo 0598c93 + 5807b18): for every grammar-producible operator node of
+    the core without a comparison chain, C++ maximal munch merges no emitted tokens, the C++ table parses the emitted tokens,
+    and the result is Python's grouping up to the parentheses the guards added. -/
+theorem group : group_statement := by
+  intro n hc hw hf
+  refine ⟨cppExprL n, pyExprL n, by simp [pyExpr, hc, hf], ?_, strip_cppExprL n⟩
+  have ht : toks n = print (cppExprL n) := by
+    simp only [toks, emit, cppLex_emitRaw n hc hw, emit_print n hc]
+  rw [ht]
+  exact parse_print_NF cppOps _ (nf_cpp n hc hw hf)
 
 def wA : Node := .atom 1 ['a']
 def wB : Node := .atom 2 ['b']
@@ -121,19 +78,58 @@ def w4 : Node := .chain 3 .int wA (.cons .lt false .int wB (.cons .lt false .int
 /-- `- -a` -/
 def w5 : Node := .factor .neg (.factor .neg wA)
 
-/-- The four witnesses of DESIGN §7 F1/F2 (and the fused sign): grammar-producible core nodes that C++ does not regroup like Python. -/
-theorem group_witnesses : ¬ Regroups w1 ∧ ¬ Regroups w2 ∧ ¬ Regroups w3 ∧ ¬ Regroups w4 ∧ ¬ Regroups w5 := by
-  refine ⟨?_, ?_, ?_, ?_, ?_⟩ <;> (rw [group_iff _ (by decide) (by decide)]; decide)
+/-- non-vacuity and regression: the former counterexamples of the grouping sentence (DESIGN §7 F1, fused sign) now regroup -/
+example : Regroups w1 ∧ Regroups w2 ∧ Regroups w3 ∧ Regroups w5 :=
+  ⟨group w1 (by decide) (by decide) (by decide), group w2 (by decide) (by decide) (by decide),
+   group w3 (by decide) (by decide) (by decide), group w5 (by decide) (by decide) (by decide)⟩
+example : String.ofList (text (emitRaw w1)) = "(a & b) == c" := by decide
+example : String.ofList (text (emitRaw w2)) = "!(a == b)" := by decide
+example : String.ofList (text (emitRaw w3)) = "(a | b) < c" := by decide
+example : String.ofList (text (emitRaw w5)) = "-(-a)" := by decide
 
-theorem group_counterexample : ¬ group_statement :=
-  fun h => group_witnesses.1 (h w1 (by decide) (by decide))
+/-- The grouping sentence without the exclusion. It stays false: a comparison chain has no C++ tree with Python's grouping. -/
+def group_statement_full : Prop := ∀ n : Node, core n = true → wf n = true → Regroups n
 
-/-- what C++ makes of `a & b == c`: `a & (b == c)` (the concrete regrouped parse; replayed on the real code as corpus/C01/f1-bitand-over-compare.json) -/
-example : parse cppOps (toks w1) = some (.bin (symCode ['&']) (.atom 1) (.bin (symCode ['=', '=']) (.atom 2) (.atom 3))) := by decide
-example : String.ofList (text (emitRaw w1)) = "a & b == c" := by decide
-example : String.ofList (text (emitRaw w2)) = "!a == b" := by decide
+/-- `a < b < c` (F2, known finding `chain-compare`; replayed on the real code by corpus/C01/f2-chain-compare.json):
+    the emitted text is `a < b < c`, which C++ parses as `(a < b) < c`. -/
+theorem group_full_counterexample : ¬ group_statement_full := by
+  intro h
+  obtain ⟨e, p, hp, _, _⟩ := h w4 (by decide) (by decide)
+  have hnone : pyExpr w4 = none := by decide
+  rw [hnone] at hp; cases hp
+
 example : String.ofList (text (emitRaw w4)) = "a < b < c" := by decide
-example : String.ofList (text (emitRaw w5)) = "--a" := by decide
+example : parse cppOps (toks w4) = some (.bin (symCode ['<']) (.bin (symCode ['<']) (.atom 1) (.atom 2)) (.atom 3)) := by decide
+
+/-! ## why the guards are needed: the flat text -/
+
+/-- Printing Python's grouping *without* the guards (what the emitter did before 0598c93) is re-parsed by C++ into the same
+    tree exactly when no parent/child slot of the node is in `badPairs`, the table computed from the two precedence tables. -/
+theorem flat_iff (n : Node) (hc : core n = true) (hw : wf n = true) :
+    parse cppOps (print (pyExprL n)) = some (pyExprL n) ↔ ∀ x ∈ slots n, x ∉ badPairs := by
+  have hpy := (nf_iff_pairs pyOps (pyExprL n)).mp (nf_py n hc hw).1
+  rw [parse_print_iff, nf_iff_pairs]
+  constructor
+  · intro h x hx hmem
+    have := ((mem_badSlots pyOps cppOps vocabulary x).mp hmem).2.2.2
+    rw [h x hx] at this
+    cases this
+  · intro h x hx
+    have hv := pairs_heads (pyExprL n) x hx
+    have hvoc := heads_vocabulary n hc
+    cases hcpp : slotOk cppOps x.1 x.2.1 x.2.2 with
+    | true => rfl
+    | false =>
+      exact absurd ((mem_badSlots pyOps cppOps vocabulary x).mpr
+        ⟨hvoc _ hv.1, by
+          rcases hv.2 with h' | h'
+          · simp [h']
+          · exact List.mem_cons_of_mem _ (hvoc _ h'), hpy x hx, hcpp⟩) (h x hx)
+
+/-- the table of bad parent/child slots is not empty: e.g. `&` as left child of `==`; the flat `a & b == c` regroups -/
+example : (Head.bin (symCode ['=', '=']), Side.left, Head.bin (symCode ['&'])) ∈ badPairs := by decide
+example : badPairs.length = 60 := by decide
+example : parse cppOps (print (pyExprL w1)) = some (.bin (symCode ['&']) (.atom 1) (.bin (symCode ['=', '=']) (.atom 2) (.atom 3))) := by decide
 
 /-! ## meaning -/
 
@@ -162,21 +158,20 @@ example :
     denotePy ρ n = .ok (.int 0) ∧ (pyExpr n).map (denoteCpp ρ) = some (.ok 0) ∧ inSubset n ρ' = false
       ∧ (pyExpr n).map (denoteCpp ρ') = some (.ok (-2)) := by decide
 
-/-- **Agreement by construction**, the conjunction of `group_iff` and `sem`: for a grammar-producible core node without a bad
-    pair, the token text tranp emits is parsed by C++ into a tree whose C++ value is the Python value, for every environment
-    on which the Python evaluation stays inside the subset. -/
-theorem agree (n : Node) (ρ : Env) (v : Val) (hc : core n = true) (hw : wf n = true) (hb : noBadPair n = true)
+/-- **Agreement by construction**, the conjunction of `group` and `sem`: for every grammar-producible core node without a
+    comparison chain, the token text tranp emits is parsed by C++ into a tree whose C++ value is the Python value, for every
+    environment on which the Python evaluation stays inside the subset. -/
+theorem agree (n : Node) (ρ : Env) (v : Val) (hc : core n = true) (hw : wf n = true) (hf : cmpChainFree n = true)
     (hv : denotePy ρ n = .ok v) : ∃ e, parse cppOps (toks n) = some e ∧ denoteCpp ρ e = .ok v.repr := by
-  obtain ⟨e, he, hp⟩ := (group_iff n hc hw).mpr hb
-  exact ⟨e, hp, sem n ρ e v he hv⟩
+  obtain ⟨e, p, hp, hparse, hs⟩ := group n hc hw hf
+  refine ⟨e, hparse, ?_⟩
+  rw [← denoteCpp_strip, hs, denoteCpp_strip]
+  exact sem n ρ p v hp hv
 
-example : ∃ e, parse cppOps (toks (.chain 3 .int (.group (.chain 6 .int wA (.cons .band false .int wB .nil))) (.cons .eq false .int wC .nil))) = some e
-    ∧ denoteCpp (fun _ => .int 0) e = .ok 1 :=
-  agree _ _ (.bool true) (by decide) (by decide) (by decide) (by decide)
-
-/-- the semantic face of F1: on a = b = c = 0 Python's `a & b == c` is True, the C++ parse of the emitted text gives 0
-    (the replay corpus/C01/f1-bitand-over-compare.json shows exactly this pair on the real code: python=True c++=False) -/
-example : denotePy (fun _ => .int 0) w1 = .ok (.bool true) ∧ (parse cppOps (toks w1)).map (denoteCpp (fun _ => .int 0)) = some (.ok 0) := by
+/-- F1 repaired, semantically: on a = b = c = 0 Python's `a & b == c` is True and the C++ parse of the emitted `(a & b) == c` gives 1;
+    the flat text `a & b == c` gave 0 -/
+example : denotePy (fun _ => .int 0) w1 = .ok (.bool true) ∧ (parse cppOps (toks w1)).map (denoteCpp (fun _ => .int 0)) = some (.ok 1)
+    ∧ (parse cppOps (print (pyExprL w1))).map (denoteCpp (fun _ => .int 0)) = some (.ok 0) := by
   decide
 
 end Tranp.C01
